@@ -174,7 +174,7 @@ def all_runs(ctx):
             argn = [body.local_name(i) or "a%d" % i for i in body.arg_locals()]
             I = Interp(f, models=sm, loop_bound=2)
             collect(I, I.run(body, [P(n) for n in argn]))
-    g = f.one(CACHE + "::get")
+    g = impl_or_default(f, MS, "get")[0]
     I = Interp(f, models=sm, dyn_impl={IMPLD + "::get_by_key": ms("get_by_key", IMPLD), IMPLD + "::check_if_expired": ms("check_if_expired", IMPLD)})
     collect(I, I.run(g, [P("self"), P("key")]))
     # 4. encoder
